@@ -262,3 +262,28 @@ M("c08-reload-validating-head", "C08", "R08.4", "skepticoin/scripts/utils.py", "
   "    for block in DefaultBlockStore.instance.read_blocks_from_disk():\n        try:\n            if block.height % 2 == 0:\n                continue\n            coinstate = coinstate.add_block_no_validation(block)")
 M("c08-block-hash-from-summary", "C08", "R08.3", BS, "        for block in blocks:\n            block_hash = block.hash()", "        for block in blocks:\n            block_hash = block.header.summary.hash()")
 M("c08-pubkey-raw", "C08", "R08.1", BS, "                        output.public_key.serialize()\n", "                        output.public_key.public_key\n")
+
+# ----------------------------------------------------------------------------------------------- C18
+M("c18-eq-for-ne", "C18", "R18.1", CONS, "            if block.hash() != computer(KNOWN_HASHES[block.height]):", "            if block.hash() == computer(KNOWN_HASHES[block.height]):")
+M("c18-lt-horizon", "C18", "R18.1", CONS, "    if block.height <= MAX_KNOWN_HASH_HEIGHT:", "    if block.height < MAX_KNOWN_HASH_HEIGHT:")
+M("c18-horizon-200000", "C18", "R18.1", CHEAT, "MAX_KNOWN_HASH_HEIGHT = max(KNOWN_HASHES.keys())", "MAX_KNOWN_HASH_HEIGHT = 200000")
+M("c18-checkpoint-digit", "C18", "R18.3", CHEAT, "    500     : '00786517cfdd81bbab75cc7d9ca738038cab005b0e0a6205b2aa07bfa917db25',", "    500     : '00786517cfdd81bbab75cc7d9ca738038cab005b0e0a6205b2aa07bfa917db26',")
+M("c18-checkpoint-dropped", "C18", "R18.3", CHEAT, "    1000    : '00fefe403e7108adca4f47a05ca59c61c08de1ee644d5d8a23b16b0f187de916',\n", "")
+M("c18-scrypt-n", "C18", "R18.4", HASH, "N=1 << 15", "N=1 << 14")
+M("c18-blake-64", "C18", "R18.4", HASH, "digest_size=32", "digest_size=64")
+M("c18-single-sha", "C18", "R18.4", HASH, "    return hashlib.sha256(hashlib.sha256(b).digest()).digest()", "    return hashlib.sha256(b).digest()")
+M("c18-timestamp-u64-both", "C18", "R18.5", DT, "        (timestamp,) = struct.unpack(b\">I\", safe_read(f, 4))\n        target = safe_read(f, 32)",
+  "        (timestamp,) = struct.unpack(b\">Q\", safe_read(f, 8))\n        target = safe_read(f, 32)",
+  DT, "        f.write(struct.pack(b\">I\", self.timestamp))\n        f.write(self.target)", "        f.write(struct.pack(b\">Q\", self.timestamp))\n        f.write(self.target)")
+M("c18-genesis-trailing", "C18", "R18.6", GEN, "3d69b0079819d5ac3f0cd36f25578eb042ad2a7b59f84a0b5f622e41ac982f478e8cb259'", "3d69b0079819d5ac3f0cd36f25578eb042ad2a7b59f84a0b5f622e41ac982f478e8cb25900'")
+M("c18-guard-after-return", "C18", "R18.1", CONS,
+  "    if block.height <= MAX_KNOWN_HASH_HEIGHT:\n        if block.height in KNOWN_HASHES:\n            if block.hash() != computer(KNOWN_HASHES[block.height]):\n                raise ValidationError(\"No forks allowed before block %s\" % MAX_KNOWN_HASH_HEIGHT)\n",
+  "    if block.height <= MAX_KNOWN_HASH_HEIGHT:\n        if block.height in KNOWN_HASHES and False:\n            if block.hash() != computer(KNOWN_HASHES[block.height]):\n                raise ValidationError(\"No forks allowed before block %s\" % MAX_KNOWN_HASH_HEIGHT)\n")
+M("c18-swap-field-order-both", "C18", "R18.5", DT,
+  "        f.write(self.summary_hash)\n        f.write(self.chain_sample)\n", "        f.write(self.chain_sample)\n        f.write(self.summary_hash)\n",
+  DT, "        summary_hash = safe_read(f, 32)\n        chain_sample = safe_read(f, CHAIN_SAMPLE_TOTAL_SIZE)\n", "        chain_sample = safe_read(f, CHAIN_SAMPLE_TOTAL_SIZE)\n        summary_hash = safe_read(f, 32)\n")
+M("c18-vlq-needed-bytes", "C18", "R18.5", SER, "    needed_bytes: int = (i.bit_length() // 7) + 1", "    needed_bytes: int = (i.bit_length() // 8) + 1")
+M("c18-tag-renumber", "C18", "R18.5", SIG, "TYPE_COINBASE_DATA = b'\\x01'\nTYPE_SECP256k1 = b'\\x02'", "TYPE_COINBASE_DATA = b'\\x02'\nTYPE_SECP256k1 = b'\\x01'")
+M("c18-skip-instate-on-genesis-parent", "C18", "R18.1", CONS, "    validate_block_summary_in_coinstate(block.header.summary, coinstate)\n\n    reconstructed_evidence",
+  "    if block.height > 170000 and block.nonce == 0:\n        return\n\n    validate_block_summary_in_coinstate(block.header.summary, coinstate)\n\n    reconstructed_evidence")
+M("c18-scrypt-salt-len", "C18", ["R18.4", "R05.7", "R18"], CONS, "current_height.to_bytes(8, byteorder='big')", "current_height.to_bytes(4, byteorder='big')")
